@@ -105,7 +105,8 @@ def cases(draw, cfg, scen=None):
     # single-file archives: readers / openers construct the archive object itself in most cases; with the user-level
     # klepto.archives.file_archive(name) every open also runs update({}) = read + re-save, which is the open finding D12f
     lowlevel = cfg in FILELIKE and not shared and draw(st.integers(0, 3)) > 0
-    return {'cfg': cfg, 'keys': pool, 'vals': vals, 'init': init, 'parts': parts, 'scen': scen, 'rand': rnd, 'shared': shared, 'lowlevel': lowlevel}
+    return {'cfg': cfg, 'keys': pool, 'vals': vals, 'init': init, 'parts': parts, 'scen': scen, 'rand': rnd, 'shared': shared, 'lowlevel': lowlevel,
+            'seeded_rng': draw(st.integers(0, 2)) == 0}
 
 
 SCENARIOS = dict((c, ['ww', 'wr', 'or', 'wo', 'wwr'] if c in DIRLIKE else ['wr', 'or', 'wo']) for c in CONFIGS)
@@ -121,8 +122,11 @@ def strata(tier):
 _KEEP = []      # handles of a participant stay referenced while its process lingers (a dropped sqlite connection would release its locks)
 
 
-def participant(cfg, root, op, keys, vals, shared=None, lowlevel=False):
+def participant(cfg, root, op, keys, vals, shared=None, lowlevel=False, seeded=False):
     def fn():
+        if seeded:
+            import random
+            random.seed(20240229)        # every worker process seeds the global generator the same way ('reproducible' workers)
         kind = op[0]
         if lowlevel and kind != 'set':
             a = A.open_lowlevel(cfg, root, 'A')
@@ -196,7 +200,7 @@ def _run(case, base):
     vals = [V.build(s) for s in case['vals']]
     parts = case['parts']
     opk = '|'.join(p[0] for p in parts)
-    classes = ['cfg:' + cfg, 'scen:' + case['scen']] + ['reader:' + p[0] for p in parts if p[0] in READS] + (['shared_handle'] if case.get('shared') else []) + \
+    classes = ['cfg:' + cfg, 'scen:' + case['scen']] + (['workers_seed_global_rng_alike'] if case.get('seeded_rng') else []) + ['reader:' + p[0] for p in parts if p[0] in READS] + (['shared_handle'] if case.get('shared') else []) + \
         (['file_lowlevel_open'] if case.get('lowlevel') else [])
     I = dict((keys[i], copy.deepcopy(vals[j])) for i, j in case['init'])
     W = {}
@@ -225,7 +229,7 @@ def _run(case, base):
         counter[0] += 1
         shutil.copytree(tmpl, root)
         handle = A.open_archive(cfg, root, 'A') if case.get('shared') else None      # opened before the fork, inherited by every participant
-        fns = [participant(cfg, root, p, keys, vals, handle, bool(case.get('lowlevel'))) for p in parts]
+        fns = [participant(cfg, root, p, keys, vals, handle, bool(case.get('lowlevel')), bool(case.get('seeded_rng'))) for p in parts]
         # sqlite: the processes stay alive and idle after their operation (connections, and any lock they still hold, stay open)
         results, trace = sched.run(fns, root, schedule, linger=(cfg == 'sql_file'))
         tails = getattr(sched.run, 'last_alone_tails', [0] * len(parts))
